@@ -1,8 +1,10 @@
 package checks
 
 import (
+	"bytes"
 	"fmt"
 	"net/http"
+	"net/url"
 	"regexp"
 	"sort"
 	"strings"
@@ -42,6 +44,7 @@ func (l lreq) hostStyle(host string) *drv.Req {
 }
 
 var (
+	simpleKey      = regexp.MustCompile(`^[A-Za-z0-9./-]+$`)
 	reLocation     = regexp.MustCompile(`<Location>[^<]*</Location>`)
 	reCopyModified = regexp.MustCompile(`(?s)(<CopyObjectResult>.*?)<LastModified>[^<]*</LastModified>`)
 )
@@ -86,7 +89,7 @@ func storeDump(s *drv.Server, buckets []string) string {
 
 func runC16(c *Ctx) {
 	r := c.R
-	r.SetRule("random request sequences (40-80 logical requests over the routed surface: bucket create/head/delete/list V1+V2/location/versioning/versions/uploads/multi-delete, object put/get/head/delete/copy/range/versionId, multipart initiate/part/list/complete/abort, browser POST) on buckets {alpha, beta-2} (one request in seven addressed to a label that is not a bucket: other letter case, a prefix or extension of a bucket name, invalid characters) and keys incl. nested and escaped ones and keys that repeat a bucket's name; each logical request is sent path-style to P, host-style to H (WithHostBucket) and to HB (WithHostBucketBase, two bases with and without port) and the three answers must be identical except request ids and the Location of CompleteMultipartUpload; fallback hosts (base itself, multi-label prefix, unrelated, IP) must be answered by HB exactly as P answers the same path; extra leading/trailing slashes must not change the addressed bucket/key; distinct = (backend, host form, request signature)")
+	r.SetRule("random request sequences (40-80 logical requests over the routed surface: bucket create/head/delete/list V1+V2/location/versioning/versions/uploads/multi-delete, object put/get/head/delete/copy/range/versionId, multipart initiate/part/list/complete/abort, browser POST) on buckets {alpha, beta-2} (one request in seven addressed to a label that is not a bucket: other letter case, a prefix or extension of a bucket name, invalid characters) and keys incl. nested and escaped ones and keys that repeat a bucket's name; each logical request is sent path-style to P, host-style to H (WithHostBucket) and to HB (WithHostBucketBase, two bases with and without port) and the three answers must be identical except request ids and the Location of CompleteMultipartUpload (which instead is followed: fetched from the same server it must be the completed object); fallback hosts (base itself, multi-label prefix, unrelated, IP) must be answered by HB exactly as P answers the same path; extra leading/trailing slashes must not change the addressed bucket/key; distinct = (backend, host form, request signature)")
 	fixed := time.Date(2021, 3, 4, 5, 6, 7, 0, time.UTC)
 	nseq := r.Pick(300, 6000)
 	kinds := []string{drv.Mem, drv.Bolt}
@@ -272,6 +275,30 @@ func c16Sequence(r *rep.Reporter, kind string, si int, fixed time.Time, bases []
 		if nn := normResp(hbn); nn != np {
 			report("host-style-differs", "nested-host-bucket-bases", l, pa, hbn, fmt.Sprintf("bases %v: path-style answers %s, host %q answers %s", nested, pa, l.Bucket+"."+nbase, hbn))
 			break
+		}
+		// the Location a complete answers with names the new object in the addressing style of the
+		// request: fetched from the same server it must be that object (plain keys only: the server
+		// does not escape the key in the URL)
+		if opname == "complete" && pa.Status == 200 && simpleKey.MatchString(l.Key) {
+			want := P.Do(lreq{Method: "GET", Bucket: l.Bucket, Key: l.Key}.pathStyle("s3.example.test"))
+			for _, sv := range []struct {
+				name string
+				s    *drv.Server
+				resp *drv.Resp
+			}{{"path-style", P, pa}, {"host-bucket", H, ha}, {"host-bucket-base", HB, hba}, {"nested-host-bucket-bases", HBN, hbn}} {
+				m := reLocation.FindString(string(sv.resp.Body))
+				loc := strings.TrimSuffix(strings.TrimPrefix(m, "<Location>"), "</Location>")
+				u, err := url.Parse(loc)
+				r.Count("complete_locations_followed", 1)
+				if err != nil || u.Host == "" {
+					report("location-unusable", sv.name, l, pa, sv.resp, fmt.Sprintf("CompleteMultipartUpload answered Location %q", loc))
+					continue
+				}
+				got := sv.s.Do(&drv.Req{Method: "GET", Host: u.Host, Path: u.Path})
+				if got.Status != want.Status || !bytes.Equal(got.Body, want.Body) {
+					report("location-does-not-address-the-object", sv.name, l, want, got, fmt.Sprintf("CompleteMultipartUpload for %s/%s answered Location %q; GET of that URL on the same server gives %s, the object is %s", l.Bucket, l.Key, loc, got, want))
+				}
+			}
 		}
 		// learn ids from P's answer
 		if opname == "initiate" && pa.Status == 200 {
